@@ -15,6 +15,7 @@ import (
 	"go/types"
 	"os"
 	"path/filepath"
+	"sort"
 	"strings"
 )
 
@@ -317,6 +318,69 @@ func funcBody(path, name string) (*ast.BlockStmt, error) {
 	return nil, fmt.Errorf("%s: function %s not found", path, name)
 }
 
+// packageFacts scans the non-test files of a package directory and returns
+//   ctors:    every call of a cardinality constructor / wrapper (the visited / seen sets), as "file:func:ctor"
+//   narrow:   every call of `.Uint32()` (an id narrowed to 32 bits), as "file:func"
+//   exported: every exported top-level function and every exported method of an exported type, as "Name" / "Type.Name"
+func packageFacts(dir string) (ctors, narrow, exported []string, err error) {
+	fset := token.NewFileSet()
+	pkgs, err := parser.ParseDir(fset, dir, func(fi os.FileInfo) bool { return !strings.HasSuffix(fi.Name(), "_test.go") }, 0)
+	if err != nil {
+		return nil, nil, nil, err
+	}
+	var files []string
+	byName := map[string]*ast.File{}
+	for _, pkg := range pkgs {
+		for name, f := range pkg.Files {
+			files = append(files, name)
+			byName[name] = f
+		}
+	}
+	sort.Strings(files)
+	for _, name := range files {
+		base := filepath.Base(name)
+		for _, d := range byName[name].Decls {
+			fd, ok := d.(*ast.FuncDecl)
+			if !ok {
+				continue
+			}
+			fname := fd.Name.Name
+			if fd.Recv != nil && len(fd.Recv.List) == 1 {
+				rt := strings.TrimPrefix(text(fd.Recv.List[0].Type), "*")
+				if i := strings.Index(rt, "["); i >= 0 {
+					rt = rt[:i]
+				}
+				if ast.IsExported(rt) && fd.Name.IsExported() {
+					exported = append(exported, rt+"."+fname)
+				}
+				fname = rt + "." + fname
+			} else if fd.Name.IsExported() {
+				exported = append(exported, fname)
+			}
+			if fd.Body == nil {
+				continue
+			}
+			ast.Inspect(fd.Body, func(n ast.Node) bool {
+				c, ok := n.(*ast.CallExpr)
+				if !ok {
+					return true
+				}
+				if sel, ok := c.Fun.(*ast.SelectorExpr); ok {
+					if id, ok := sel.X.(*ast.Ident); ok && id.Name == "cardinality" {
+						ctors = append(ctors, base+":"+fname+":"+sel.Sel.Name)
+					}
+					if sel.Sel.Name == "Uint32" && len(c.Args) == 0 {
+						narrow = append(narrow, base+":"+fname)
+					}
+				}
+				return true
+			})
+		}
+	}
+	sort.Strings(exported)
+	return ctors, narrow, exported, nil
+}
+
 func leanList(name string, toks []string) string {
 	var sb strings.Builder
 	fmt.Fprintf(&sb, "def %s : List String := [\n", name)
@@ -353,6 +417,23 @@ func main() {
 		w := &walker{}
 		w.block(body)
 		sb.WriteString(leanList(it.lean, w.out))
+	}
+	for _, pkg := range []string{"ops", "traversal"} {
+		ctors, narrow, exported, err := packageFacts(filepath.Join(*repo, pkg))
+		if err != nil {
+			fmt.Fprintln(os.Stderr, "c17order:", err)
+			os.Exit(1)
+		}
+		sb.WriteString(leanList(pkg+"SetCtors", ctors))
+		names := make([]string, len(ctors))
+		for i, c := range ctors {
+			names[i] = c[strings.LastIndex(c, ":")+1:]
+		}
+		sb.WriteString(leanList(pkg+"SetCtorNames", names))
+		sb.WriteString(leanList(pkg+"IdNarrowings", narrow))
+		if pkg == "traversal" {
+			sb.WriteString(leanList(pkg+"Exported", exported))
+		}
 	}
 	sb.WriteString("end Dawgs.Generated.C17\n")
 	if *out == "" {
